@@ -316,11 +316,14 @@ def compare_with_library(env, what, res, out_cli, lib_exc, out_lib, differ, diff
     if lib_exc is not None:
         obs.cls('library-raised-not-asserted')
         obs.cls('library-raised:%s:%s' % (what.split()[0], type(lib_exc).__name__))
+        mech = 'cli-success-where-library-raises'
+        if not res.failed and diff_mech is not None:
+            mech = diff_mech() or mech
         if outputs_present(out_lib):
             obs.cls('library-raised-leaving-a-file-output-absence-not-asserted')
-            expect_user_error(env, res, None, what + ' (library call raises %s)' % type(lib_exc).__name__, mech='cli-success-where-library-raises')
+            expect_user_error(env, res, None, what + ' (library call raises %s)' % type(lib_exc).__name__, mech=mech)
         else:
-            expect_user_error(env, res, out_cli, what + ' (library call raises %s)' % type(lib_exc).__name__, mech='cli-success-where-library-raises')
+            expect_user_error(env, res, out_cli, what + ' (library call raises %s)' % type(lib_exc).__name__, mech=mech)
         return False
     obs.cls('cli:compared-with-library')
     ok = obs.expect(not res.failed, what + ': succeeds where the library call succeeds', lambda: res.brief(),
@@ -413,27 +416,26 @@ def op_clip(env):
     lib_exc = library_clip(env, geom, out_lib)
 
     def diff_mech():
-        # Mechanism predicate of 'bounds-regex-unanchored': the command line produced exactly what the library produces
-        # for the box denoted by a proper PREFIX of the argument (the pattern stopped matching before the end).
-        if form != 'bounds':
+        # Mechanism predicate of 'bounds-regex-unanchored': this tree's own argument parser reads the string as the box
+        # denoted by a proper PREFIX of it (the pattern stopped matching before the end), and the command line produced
+        # exactly what the library produces for that prefix box.
+        if form != 'bounds' or not outputs_present(out_cli):
             return None
         from emsarray.cli import utils as cli_utils
         try:
-            if is_exact_box(cli_utils.geometry_argument(arg), values):
-                return None         # the argument parser of this tree reads the string correctly: not this mechanism
+            parsed = cli_utils.geometry_argument(arg)
         except Exception:  # noqa: BLE001
             return None
-        seen = {values}
-        for k in range(len(arg) - 1, 0, -1):
+        if is_exact_box(parsed, values):
+            return None
+        for k in range(1, len(arg)):
             shorter = cliref.parse_bounds(arg[:k])
-            if shorter is None or shorter in seen:
-                continue
-            seen.add(shorter)
-            out_alt = env.path('clip-prefix.nc')
-            if library_clip(env, shapely.box(*shorter), out_alt) is None and cliref.nc_diff(cliref.nc_content(out_cli), cliref.nc_content(out_alt)) is None:
-                return 'bounds-regex-unanchored'
-            if len(seen) > 4:
-                break
+            if shorter is not None and is_exact_box(parsed, shorter):
+                out_alt = env.path('clip-prefix.nc')
+                if library_clip(env, shapely.box(*shorter), out_alt) is None \
+                        and cliref.nc_diff(cliref.nc_content(out_cli), cliref.nc_content(out_alt)) is None:
+                    return 'bounds-regex-unanchored'
+                return None
         return None
 
     same = compare_with_library(env, 'clip (%s)' % form, res, out_cli, lib_exc, out_lib, nc_differ(out_cli, out_lib), diff_mech)
